@@ -565,6 +565,20 @@ def rule_method_filter_total(repo: Repo, rep, rule: str = "R7.8") -> None:
     gs = [(g, pol) for g, pol in guards(cfg, use.id, dom) if g.kind == "test" and pol is not None and any(
         isinstance(x, ast.Name) and (x.id == var or var in {y.id for y in ast.walk(L.inline(x)) if isinstance(y, ast.Name)}) for x in ast.walk(g.ast))]
     rep.count(f"{rule}:filter_tests", [norm(g.ast)[:60] for g, _ in gs])
+    # a skip inside the key loop that does not look at the key looks at the value: `if not <operation object>: continue` drops `get: {}` (an
+    # operation without any field is a valid OpenAPI 3.1 operation - a health probe, a CORS `options: {}`)
+    loop = next((x for x in ast.walk(po.node) if isinstance(x, (ast.For, ast.AsyncFor)) and any(isinstance(t, ast.Name) and t.id == var for t in ast.walk(x.target))), None)
+    if loop is not None:
+        inner = {id(x) for x in ast.walk(loop)}
+        val_vars = {t.id for t in ast.walk(loop.target) if isinstance(t, ast.Name)} - {var}
+        for g, pol in guards(cfg, use.id, dom):
+            if g.kind != "test" or pol is None or g.ast is None or id(g.ast) not in inner or (g, pol) in gs:
+                continue
+            names = {x.id for x in ast.walk(L.inline(g.ast)) if isinstance(x, ast.Name)} | {x.id for x in ast.walk(g.ast) if isinstance(x, ast.Name)}
+            if names & val_vars:
+                rep.violation(rule, f"{po.module.relpath}:parse_operations skip on the operation object", f"{po.fq}|operation-skipped-by-its-value",
+                              f"`{norm(g.ast)[:60]}` decides whether the operation under a recognised HTTP method key is parsed at all: an operation whose object is empty / falsy "
+                              "(`get: {}`) is dropped without warning or error, its method is missing on the tag client", po.loc(g.ast))
     rep.require(len(gs) >= 1, f"{rule}: no skip test on the path-item key dominates the HTTPMethod lookup (anchor)")
     dropped = {}
     for mname in members:
